@@ -32,6 +32,7 @@ var keyProps = map[string][]string{
 	"selected-output-not-in-table":     {"C05", "C03", "C12"},
 	"double-supersede":                 {"C03", "C12"},
 	"pool-unexpected":                  {"C03", "C12"},
+	"pending-tx-not-replayable":        {"C01", "C03", "C12"},
 	"failed-":                          {"C05", "C01", "C02"},
 	"after-failed-op:":                 {"C05"},
 	"fault-ignored":                    {"C05"},
